@@ -71,6 +71,11 @@ CHECKS = {
   note="Available only probed between events; callback totals summed over all queue objects of the run.",
   technique="model-based property testing (rapid), drain-probe ground truth",
   design="4/C17"),
+ "C14": dict(
+  text="Model-based exploration of max-size changes on open: generated prior history, open with FlagUpdMaxSize to a larger / smaller / equal / unbounded limit (with and without Prealloc), lock-state probe, read and write transactions, capacity probes and further history, then a plain reopen; oracles: model equality, lock idle after open, exact capacity delta after growing, extent bound after shrinking, persisted limit.",
+  note="A blocked Begin is detected via the lock-state hook rather than by timeout; exact grow delta only asserted when the data end was within the old limit.",
+  technique="model-based property testing (rapid) over (history, old max, new max, prealloc)",
+  design="4/C14"),
 }
 
 NOT_APPLICABLE = {}
